@@ -216,7 +216,10 @@ def malformations(t):
                 out.append("empty-upload-path")
             if leafname(d.get("encryption_passphrase", ("x",))) == 'empty':
                 out.append("empty-passphrase")
-            if leafname(d.get("max_time_without_backups", ("x",))) in BAD_DUR:
+            mt = d.get("max_time_without_backups")
+            # a duration is a number followed by m / h / d: anything else - other spellings, other scalar types, a present but valueless key
+            # (null) - is malformed
+            if mt is not None and (mt[0] != "leaf" or leafname(mt) not in ('d7', 'h24', 'm1')):
                 out.append("bad-duration")
             if "provider" in d:
                 level(d["provider"], "provider")
